@@ -13,7 +13,7 @@ TStep ==
      \/ Ev.ev = "started" /\ Started(Ev.t)
      \/ Ev.ev = "call" /\ Call(Ev.t, Ev.m, Ev.fn)
      \/ Ev.ev = "change" /\ Change(Ev.t, Ev.m, Ev.interval, Ev.flag, Ev.isfast)
-     \/ Ev.ev = "trigger" /\ UNCHANGED pvars
+     \/ Ev.ev = "trigger" /\ Trigger(Ev.m)
      \/ Ev.ev = "end" /\ End(Ev.t, Ev.alive, Ev.exc)
 TSpec == TInit /\ [][TStep]_<<pvars, t, l>>
 Track == TLCSet(t, IF l > TLCGet(t) THEN l ELSE TLCGet(t))
